@@ -569,6 +569,13 @@ def splice_fn(repo, file, item_path, sections, trait=None, nth=0, opts=(), canar
                     if pi + 1 >= len(pat) or pat[pi + 1][0] != 't':
                         return None
                     stop = pat[pi + 1][1]
+                    if pi == 0:
+                        # a leading wildcard stands for exactly one token (an identifier): otherwise every earlier start would match too
+                        if q + 1 >= len(body_ci) or toks[body_ci[q]].kind != 'ident' or toks[body_ci[q + 1]].text != stop:
+                            return None
+                        caps[v] = (q, q)
+                        q += 1
+                        continue
                     depth, start = 0, q
                     while q < len(body_ci):
                         tq = toks[body_ci[q]]
